@@ -72,3 +72,46 @@ Theorem C04_senc_bytes_match_saiz_sizes :
     length bs = list_sum (map (FieldProofs.senc_sample_size flags iv) counts).
 Proof. intros flags iv counts vs bs H. rewrite (FieldProofs.enc_fields_length _ _ _ H). exact (FieldProofs.senc_samples_len flags iv counts). Qed.
 Print Assumptions C04_senc_bytes_match_saiz_sizes.
+
+(* ---- emsg (the box C14's events travel in): the reader finds the layout from the bytes alone (the two NUL-terminated
+   strings decide where the numbers and the message data start); for both box versions, every NUL-free scheme / value
+   string, every field value in range and every message data, what is written is read back as the same values with
+   nothing left over.  A string with a NUL inside is cut short by any reader (FieldProofs.cstr_nul_inside), which is
+   why no_nul is a hypothesis and not a convenience. *)
+Theorem C04_emsg_v0_roundtrip :
+  forall flags s1 s2 a b c d data,
+  let l := FieldModel.l_emsg 0 (S (length s1)) (S (length s2)) (length data) in
+  let vs := [FieldModel.VU 0; FieldModel.VU flags; FieldModel.VB (s1 ++ [0]); FieldModel.VB (s2 ++ [0]);
+             FieldModel.VU a; FieldModel.VU b; FieldModel.VU c; FieldModel.VU d; FieldModel.VB data] in
+  FieldProofs.no_nul s1 -> FieldProofs.no_nul s2 -> FieldModel.vals_ok l vs ->
+  exists bs, FieldModel.enc_fields l vs = Some bs /\ FieldModel.emsg_layout bs = Some l /\
+             FieldModel.dec_fields l bs = Some (vs, []).
+Proof. exact FieldProofs.emsg_selfdescribing_v0. Qed.
+Print Assumptions C04_emsg_v0_roundtrip.
+
+Theorem C04_emsg_v1_roundtrip :
+  forall flags s1 s2 a b c d data,
+  let l := FieldModel.l_emsg 1 (S (length s1)) (S (length s2)) (length data) in
+  let vs := [FieldModel.VU 1; FieldModel.VU flags; FieldModel.VU a; FieldModel.VU b; FieldModel.VU c; FieldModel.VU d;
+             FieldModel.VB (s1 ++ [0]); FieldModel.VB (s2 ++ [0]); FieldModel.VB data] in
+  FieldProofs.no_nul s1 -> FieldProofs.no_nul s2 -> FieldModel.vals_ok l vs ->
+  exists bs, FieldModel.enc_fields l vs = Some bs /\ FieldModel.emsg_layout bs = Some l /\
+             FieldModel.dec_fields l bs = Some (vs, []).
+Proof. exact FieldProofs.emsg_selfdescribing_v1. Qed.
+Print Assumptions C04_emsg_v1_roundtrip.
+
+Theorem C04_cstr_len_sound :
+  forall bs n, FieldModel.cstr_len bs = Some n ->
+  exists s rest, bs = s ++ 0 :: rest /\ FieldProofs.no_nul s /\ n = S (length s).
+Proof. exact FieldProofs.cstr_len_sound. Qed.
+Print Assumptions C04_cstr_len_sound.
+
+Example C04_emsg_example :
+  (* version 0, scheme "u", value "", timescale 1000, delta 2, duration 3, id 4, data [9] *)
+  FieldModel.emsg_layout ([0;0;0;0] ++ [117;0] ++ [0] ++ [0;0;3;232] ++ [0;0;0;2] ++ [0;0;0;3] ++ [0;0;0;4] ++ [9])
+  = Some (FieldModel.l_emsg 0 2 1 1) /\
+  FieldProofs.no_nul [117] /\
+  FieldModel.vals_ok (FieldModel.l_emsg 0 2 1 1)
+    [FieldModel.VU 0; FieldModel.VU 0; FieldModel.VB [117; 0]; FieldModel.VB [0]; FieldModel.VU 1000; FieldModel.VU 2;
+     FieldModel.VU 3; FieldModel.VU 4; FieldModel.VB [9]].
+Proof. split; [vm_compute; reflexivity|]. split; [repeat constructor; discriminate|]. cbn. repeat split; lia. Qed.
